@@ -2,13 +2,13 @@ package props
 
 import (
 	"bytes"
-	"runtime"
 	"context"
 	"fmt"
 	"io"
 	"os"
 	"path/filepath"
 	"regexp"
+	"runtime"
 	"sort"
 	"strings"
 	"time"
